@@ -256,12 +256,8 @@ def run_case(case, ctx):
         k = np.asarray(out["kktViolations"]).reshape(-1)
         ctx.check(not bool((k < 0).any()), "cp_apr", "KKT", f"negative KKT violation entry: {k.tolist()}")
         ctx.check(1 <= len(k) <= mi, "cp_apr", "ITERS", f"{len(k)} KKT entries for maxiters={mi}")
-        if case.get("stoptime") is not None and case["stoptime"] <= 0:
-            ctx.check(len(k) == 1, "cp_apr", "ITERS", f"time budget exhausted from the start: {len(k)} KKT entries, want exactly the one sweep performed")
-        for key in ("nTotalIters", "nInnerIters", "times", "nViolations", "nZeros", "fnVals", "fnEvals"):
-            if key in out and np.ndim(out[key]) >= 1:
-                ctx.check(len(np.asarray(out[key]).reshape(-1)) == len(k), "cp_apr", "ITERS", f"output '{key}' has {len(np.asarray(out[key]).reshape(-1))} entries, kktViolations has {len(k)}",
-                          which=key)
+        # (not judged: how many sweeps a run with an exhausted time budget performs, and the lengths of the other per-iteration arrays of
+        # the output - the property names the KKT entries and the iteration limit only)
         nouter = out.get("nOuterIters", out.get("iters"))
         ctx.check((not np.isfinite(ll0)) or (np.isfinite(ll) and ll >= ll0 - 1e-6 * abs(ll0)), "cp_apr", "WORSE-THAN-GUESS", f"log-likelihood of result {ll!r} < that of the guess {ll0!r}", maxiters=mi)
 
